@@ -1,6 +1,60 @@
 // C19 - harmonic sums, gravity and magnetic models, normal gravity (DESIGN 3/C19)
 //
-// MUTATION TABLE (scratch copy of /repo, VERIF_REPO=/tmp/mutC19, quick tier) - see the end of this file.
+// Sub-checks, oracles, tolerances
+//   C19.a  SphericalHarmonic/1/2 value + gradient vs R-SH (ref/sh_ref: 50-digit defining sum, analytic gradient)
+//          tol: KV eps ((nmx+2) S1 + r Sg) / KG eps (nmx+2) Sg (+ the engine's underflow floor), S1 = sum |terms|
+//   C19.b  library only: gradient vs difference quotient of the value, divergence of the gradient (loose)
+//   C19.c  Circle(p,z)(lon) vs R-SH and vs direct evaluation, incl. gradient, polar circle, sin/cos interface
+//   C19.d  limits (nmx,mmx) vs zeroed coefficients (value, gradient, circle)
+//   C19.e  MagneticModel/MagneticCircle from synthetic .wmm/.wmm.cof vs -a grad of the time-combined R-SH potential,
+//          ENU rotation, H F D I and rates from the definitions, Degree/Order, degree-0 term rejected
+//   C19.f  GravityModel/GravityCircle from synthetic .egm/.egm.cof: V, W, U, T, delta, Gravity, Disturbance,
+//          SphericalAnomaly, GeoidHeight vs R-SH and R-NG (ref/ng_ref: H+M closed form in 100 digits)
+//   C19.g  NormalGravity vs R-NG: U0, V0/U/gradients, div Gamma, Somigliana, gamma_e/p, f*, J_n (projection), J2<->f
+//
+// MUTATION TABLE.  Scratch copy of /repo HEAD (src include tools) under /tmp/mutC19, one edit each, run with
+// `VERIF_REPO=/tmp/mutC19/m python3 check.py C19 --tier quick`; "caught by" = sub-checks with confirmed violations.
+//   SphericalEngine::Value FULL  Ax root[2n+3] -> root[2n+2]           caught by a b c d e f
+//   SphericalEngine::Value FULL  B  root[2n+5] -> root[2n+4]           caught by a b c d e f
+//   SphericalEngine::Value SCHMIDT Ax (2n+1) -> (2n+2)                 caught by a b c d e f
+//   SphericalEngine::Value outer sum FULL root[2m+3] -> root[2m+2]     caught by a b c d e f
+//   Value: pole guard fmax(p/r, eps()) removed                         caught by a c d e f   (NaN on the axis)
+//   Value: qs = q/scale() -> 2 q/scale() (scaling mismatch)            caught by a c d e f
+//   RootTable: sqrt table entry 37 wrong                               caught by a b c d e f
+//   Value: radial derivative (n+1) R -> n R                            caught by a b c e f
+//   Value: d/dlambda partial sum  m ws -> m wc                         caught by a b c e f
+//   SphericalEngine::Circle SCHMIDT B constant                         caught by c e f
+//   Circle: m tu ws term of the theta derivative dropped               caught by c e f
+//   CircularEngine outer SCHMIDT root[2m+1] -> root[2m+3]              caught by c e f
+//   CircularEngine partial sum vls sign                                caught by c e f
+//   SphericalHarmonic1::Circle FULL -> SCHMIDT (value-only branch)     caught by c
+//   coeff::Cv(k,n,m,f): n > nmx no longer masked                       caught by a b c d f
+//   readcoeffs: skip after truncated C columns off by 8 bytes          caught by e f   (file rejected)
+//   MagneticModel time index clamp nNmodels-1 -> nNmodels-2            caught by e
+//   MagneticModel::Circle floor -> ceil                                caught by e
+//   MagneticModel / MagneticCircle constant term dropped (2 mutants)   caught by e
+//   MagneticModel ENU Unrotate outputs swapped                         caught by e
+//   MagneticCircle Rotation(sphi,cphi) swapped                         caught by e
+//   MagneticModel degree-0 check removed                               caught by e
+//   FieldComponents D = atan2d(By,Bx)                                  caught by e
+//   MagneticModel rate scaled by +a instead of -a                      caught by e
+//   GravityModel zeta0 not divided by CorrectionMultiplier             caught by f
+//   SphericalAnomaly 2T/R -> T/R                                       caught by f
+//   GravityModel zonal amult not squared                               caught by f
+//   GravityCircle::W centrifugal sign / GeoidHeight correction sign    caught by f
+//   GravityModel::V  GZ sign                                           caught by f
+//   NormalGravity atan7series 1/(2n+7) -> 1/(2n+8)                     caught by f g
+//   atan7series: half the terms                                        caught by f g
+//   Qf closed form (1+3/y) -> (1+2/y);  Qf series /6 -> /5             caught by g;  f g
+//   Hf series (1+y) -> (1-y);  Hf closed form (1+1/y) -> (1+2/y)       caught by f g;  g
+//   atanzz alt branch asinh -> atan (prolate)                          caught by f g
+//   atanzz non-alt branch x < 0: atanh -> atan                         NOT caught: dead code (the class only calls it with x >= 0)
+//   SurfaceGravity k sin^2 -> k |sin|                                  caught by f g
+//   V0: gamb sign                                                      caught by f g
+//   QH3f series /10 -> /11 (Newton derivative in J2ToFlattening)       caught by f g   (flattening off by ~1e-14)
+//   Jn (2n+3) -> (2n+2)                                                caught by f g
+//   seeded/fix-reverts F38 (T invR), F39 (Schmidt zonal), F40 (Jn sphere)   caught by f; f; f g
+// 42 of 43 edits and 3 of 3 fix-reverts caught; the survivor is an equivalent mutant.
 #include "fw/harness.hpp"
 #include "gen/c19_synth.hpp"
 #include "gen/geo.hpp"
@@ -32,11 +86,10 @@ namespace {
 // Tolerances (BUILDING "Tolerances": no accuracy figure is documented for the harmonic sums, so a
 // round-off law calibrated on the unchanged tree, frozen at >= 4x the maximum seen over 6 seeds of the
 // quick tier and one thorough run).
-//   value    : KV * eps * (nmx + 2) * S1,  S1 = sum over the terms of |q^(n+1) P_nm| (|C| + |S|)  ("sum |terms|")
-//   gradient : KG * eps * (nmx + 2) * Sg,  Sg = the same sum with |grad of the term| (spherical components)
-// Observed maxima over 6 seeds (unchanged tree + the two proposed fixes): value 12 eps ((nmx+2) S1 + r Sg) (a zonal
-// term of degree 60 next to the pole), gradient 10 eps (nmx+2) Sg.
-const L KV = 64, KG = 96;
+//   value    : KV * eps * (G(nmx) * S1 + r Sg),  S1 = sum over the terms of |q^(n+1) P_nm| (|C| + |S|)  ("sum |terms|")
+//   gradient : KG * eps * G(nmx) * Sg,           Sg = the same sum with |grad of the term|;  G(n) = (n+2)(1 + (n+2)/32)
+// Observed maxima (6 quick seeds, one thorough run): value 4 eps (G S1 + r Sg), gradient 8 eps G Sg.
+const L KV = 24, KG = 32;
 // Underflow floor.  SphericalEngine multiplies the coefficients by scale() = 2^-614 ("to guard against overflow
 // when N is large") and divides the result by it, so intermediate quantities below the denormal range are lost
 // although the final value would be representable: a term smaller than ~1e-138 times q is flushed to zero (this
@@ -52,7 +105,11 @@ inline Tol tol_of(const sh::Out& o, int nmx, double a, double x, double y, doubl
   // value: round-off of the summation (n eps sum|terms|) plus the conditioning with respect to the computed
   // direction cosines and q (an ulp of t = z/r moves the value by eps r |grad|; this is what is left when a
   // single term is evaluated next to a zero of P_nm, where sum|terms| itself vanishes)
-  Tol t; t.v = KV * EPS * ((nmx + 2) * o.S1 + r * o.Sg) + floorV(nmx, q); t.g = KG * EPS * (nmx + 2) * o.Sg + floorG(nmx, q, r, u);
+  // growth with the degree: linear for the bulk, but next to the poles the three-term recurrences behind the zonal
+  // and low-order terms amplify round-off like n^2 (seen on the unchanged tree: 23 eps (n+2) Sg at n = 60 and
+  // 91 eps (n+2) Sg at n = 360, always a zonal term within 0.01 deg of the axis): (n+2) (1 + (n+2)/32)
+  L nn = nmx + 2, growth = nn * (1 + nn / 32);
+  Tol t; t.v = KV * EPS * (growth * o.S1 + r * o.Sg) + floorV(nmx, q); t.g = KG * EPS * growth * o.Sg + floorG(nmx, q, r, u);
   return t;
 }
 
@@ -706,16 +763,17 @@ Verdict check_e(const J& r) {
     L lH = hypotl(Bx, By), lF = hypotl(lH, Bz);
     if (lH > 0) {
       const L deg = 180 / PI_L;
-      v.le(fabsl(H - lH), 4 * EPS * lH, "H = hypot(Bx, By)");
-      v.le(fabsl(Fm - lF), 4 * EPS * lF, "F = hypot(H, Bz)");
+      const L tiny = 1e-290L;    // products of the components may underflow (e.g. Bz ~ 1e-296 at lat = 1e-300)
+      v.le(fabsl(H - lH), 4 * EPS * lH + tiny, "H = hypot(Bx, By)");
+      v.le(fabsl(Fm - lF), 4 * EPS * lF + tiny, "F = hypot(H, Bz)");
       v.le(fabsl(D - atan2l(Bx, By) * deg), 8 * EPS * 180, "D = atan2(Bx, By) [deg]");
       v.le(fabsl(I - atan2l(-(L)Bz, lH) * deg), 8 * EPS * 180, "I = atan2(-Bz, H) [deg]");
       v.that(H == H2 && Fm == F2 && D == D2 && I == I2, "FieldComponents overloads disagree");
       L lHt = ((L)Bx * Bxt + (L)By * Byt) / lH;
-      v.le(fabsl(Ht - lHt), 16 * EPS * (fabsl((L)Bx * Bxt) + fabsl((L)By * Byt)) / lH, "Ht");
-      v.le(fabsl(Ft - (lH * lHt + (L)Bz * Bzt) / lF), 16 * EPS * (fabsl((L)Bx * Bxt) + fabsl((L)By * Byt) + fabsl((L)Bz * Bzt)) / lF, "Ft");
-      v.le(fabsl(Dt - ((L)By * Bxt - (L)Bx * Byt) / (lH * lH) * deg), 16 * EPS * (fabsl((L)By * Bxt) + fabsl((L)Bx * Byt)) / (lH * lH) * deg, "Dt");
-      v.le(fabsl(It - ((L)Bz * lHt - lH * Bzt) / (lF * lF) * deg), 16 * EPS * (fabsl((L)Bz * lHt) + fabsl(lH * Bzt) + fabsl((L)Bz) * (fabsl((L)Bx * Bxt) + fabsl((L)By * Byt)) / lH) / (lF * lF) * deg, "It");
+      v.le(fabsl(Ht - lHt), 16 * EPS * (fabsl((L)Bx * Bxt) + fabsl((L)By * Byt)) / lH + tiny, "Ht");
+      v.le(fabsl(Ft - (lH * lHt + (L)Bz * Bzt) / lF), 16 * EPS * (fabsl((L)Bx * Bxt) + fabsl((L)By * Byt) + fabsl((L)Bz * Bzt)) / lF + tiny, "Ft");
+      v.le(fabsl(Dt - ((L)By * Bxt - (L)Bx * Byt) / (lH * lH) * deg), 16 * EPS * (fabsl((L)By * Bxt) + fabsl((L)Bx * Byt)) / (lH * lH) * deg + tiny, "Dt");
+      v.le(fabsl(It - ((L)Bz * lHt - lH * Bzt) / (lF * lF) * deg), 16 * EPS * (fabsl((L)Bz * lHt) + fabsl(lH * Bzt) + fabsl((L)Bz) * (fabsl((L)Bx * Bxt) + fabsl((L)By * Byt)) / lH) / (lF * lF) * deg + tiny, "It");
     } else v.tag("H=0");
   }
   return v;
@@ -731,7 +789,7 @@ vf::Reg re({"C19.e", "MagneticModel/MagneticCircle loaded from a synthetic .wmm/
 namespace {
 
 const L KT = 32;   // factor on the round-off law of the potentials (calibrated)
-const L KJ = 320;  // see C19.g
+const L KJ = 480;  // see C19.g
 
 struct GravCase {
   int norm = 0, N = 2, M = 2, Nc = -1, Mc = -1, style = 0, usef = 1, fract = 0, trunc = 0, Nmax = -1, Mmax = -1, kind = 1;
@@ -1076,7 +1134,7 @@ namespace {
 
 const L KN = 160;  // factor on eps for the normal-gravity potentials and gradients (calibrated: max seen 38)
 // (KJ, defined with C19.f) J2 <-> flattening: just above the series/closed-form switch (4|y| >= 1) the closed expressions in Qf lose about
-// two digits to cancellation ((1+3/y) atan - 3/y with y ~ 1/4: factor ~200), observed up to 75 eps of the scale
+// two digits to cancellation ((1+3/y) atan - 3/y with y ~ 1/4: factor ~200), observed up to 110 eps of the scale
 
 J gen_ng() {
   J r = J::obj();
